@@ -174,6 +174,33 @@ func vh_C12_late_after_timeout() {
 	vxReach("done")
 }
 
+// a late response after a failed retransmission write
+func vh_C12_late_after_write_error() {
+	fb := &vxCalls{}
+	env := vxNewClient(WithHandler(fb.handle))
+	env.c.maxAttempts = 2
+	env.c.SetRTO(100)
+	a, b := vxID(), vxID()
+	vxAssume(a != b)
+	recA, recB := &vxCalls{}, &vxCalls{}
+	vxAssert(env.c.Start(vxRequest(a, 40), recA.handle) == nil, "Start A succeeds")
+	env.conn.failNext = true
+	env.tick(env.clock.now.Add(1000)) // A's retransmission fails: A ends with the write error
+	vxAssert(len(recA.events) == 1 && recA.events[0].Error != nil, "A ends with the write error")
+	late := &Message{TransactionID: a}
+	_ = env.deliver(late)
+	vxAssert(len(recA.events) == 1, "A's handler is not invoked again")
+	vxAssert(len(fb.events) == 1 && fb.events[0].Message == late, "a late response for the ended transaction goes to the fallback handler")
+	vxAssert(env.c.Start(vxRequest(b, 40), recB.handle) == nil, "Start B succeeds (it may reuse A's pooled object)")
+	late2 := &Message{TransactionID: a}
+	_ = env.deliver(late2)
+	vxAssert(len(recB.events) == 0 && len(fb.events) == 2, "another late response for A does not reach B")
+	resp := &Message{TransactionID: b}
+	_ = env.deliver(resp)
+	vxAssert(len(recB.events) == 1 && recB.events[0].Message == resp, "B still receives its own response")
+	vxReach("done")
+}
+
 // stopped transactions: the stop event reaches the handler; a Stop for an unknown ID is not passed to the fallback
 func vh_C12_selftest() {
 	env := vxNewClient()
@@ -291,6 +318,33 @@ func vh_C15_close() {
 }
 
 // nil-safety of the entry points on a client that was never initialised
+// the reader sees EOF before Close is called: the connection is still closed exactly once, by Close
+func vh_C15_reader_eof() {
+	noConnClose := vxChoose(2) == 1
+	var env *vxClientEnv
+	if noConnClose {
+		env = vxNewClient(WithNoConnClose())
+	} else {
+		env = vxNewClient()
+	}
+	env.conn.eofs = 1 + vxChoose(2) // the peer shut the stream down: Read returns EOF once or twice
+	var closeErr error
+	closedBefore := -1
+	env.conn.after = func() {
+		closedBefore = env.conn.closed
+		closeErr = env.c.Close()
+	}
+	env.c.readUntilClosed() // EOF(s), then Close arrives while the reader is back in Read
+	vxReach("done")
+	vxAssert(closedBefore == 0, "the reader does not close the connection on EOF")
+	vxAssert(closeErr == nil, "Close succeeds")
+	if noConnClose {
+		vxAssert(env.conn.closed == 0, "the connection is never closed under WithNoConnClose")
+	} else {
+		vxAssert(env.conn.closed == 1, "the connection is closed exactly once")
+	}
+}
+
 func vh_C15_uninitialised() {
 	var c *Client
 	if vxChoose(2) == 1 {
